@@ -150,6 +150,7 @@ type Scn struct {
 	CancelAtMs int               `json:"cancel_at_ms,omitempty"` // cancel the caller's context (icmp/sack take one)
 	EpsNs     int64              `json:"eps_ns,omitempty"`
 	NoOwnLoop bool               `json:"no_own_loop,omitempty"`
+	MaxSteps       int    `json:"max_steps,omitempty"` // scheduler step horizon (0 = default 200000)
 	TargetOverride string `json:"target_override,omitempty"` // probe another address than the variant's default
 	ShareListener  int    `json:"share_listener,omitempty"`  // SACK: 1+index of the scenario whose listener (same address and port) this one connects to
 	// Then: scenarios run one after the other in the same thread after this one (non-initial states, stale traffic)
@@ -808,6 +809,11 @@ func RunScns(cfg vsched.Config, top ...*Scn) *Result {
 	}
 	if cfg.MaxVirtual == 0 {
 		cfg.MaxVirtual = 30 * time.Minute
+	}
+	for _, sc := range scns {
+		if sc.MaxSteps > cfg.MaxSteps {
+			cfg.MaxSteps = sc.MaxSteps
+		}
 	}
 	res.X = vsched.Run(cfg, n, func() {
 		one := func(i int) {
